@@ -366,7 +366,7 @@ pub const ROUTES: [&str; 8] = ["dnf", "cnf", "ite", "anf", "exists-detour", "mod
 
 pub fn c02(out: &mut dyn Write, tier: &str, rng: &mut Rng, st: &mut Stats) {
     let embs: Vec<Vec<usize>> = vec![vec![0, 1, 2], vec![1, 4, 9], vec![3, 5, 6]];
-    let le = LogEnv::new(out, "C02");
+    let mut le = LogEnv::new(out, "C02");
     let other_env: BDDEnv<usize> = BDDEnv::new();
     let emit_canon = |le: &LogEnv, name: &str, c: &B, r: &B| {
         le.raw(format!(
@@ -447,6 +447,39 @@ pub fn c02(out: &mut dyn Write, tier: &str, rng: &mut Rng, st: &mut Stats) {
             let tc = { let mut t = 0u64; for k in 0..8u64 { let av = bit(ta, k); if (av && bit(tb, k)) || (!av && eval(&c, &|x| bit(k, vars.iter().position(|y| *y == x).unwrap() as u64))) { t |= 1 << k; } } t };
             emit_canon(&le, "foreign-ite", &from_tt(tc, vars), &r);
         }
+    }
+    // foreign operands in a FRESH environment (its table knows none of their nodes), in shapes whose result
+    // collapses onto the foreign operand itself or one of its sub-diagrams: (z & f) | (!z & f), z ? f : f,
+    // f & f, exists z # z & f, true & f, f | false; afterwards the environment must still hand out
+    // canonical diagrams for ordinary requests (state left behind by the first call)
+    let nfresh = if thorough { 20000 } else { 1800 };
+    for i in 0..nfresh {
+        le.env = BDDEnv::new();
+        let vars = &embs[i % embs.len()];
+        let tf = rng.below(256);
+        let f = if i % 2 == 0 { from_tt(tf, vars) } else { crate::env::intern(&other_env, &from_tt(tf, vars)) };
+        let z = loop { let z = rng.below(12) as usize; if !vars.contains(&z) { break z; } };
+        let zv = le.var(z);
+        let nz = le.not(&zv);
+        let r = match (i / 2) % 6 {
+            0 => le.or(&le.and(&zv, &f), &le.and(&nz, &f)),
+            1 => le.ite(&zv, &f, &f),
+            2 => le.and(&f, &f),
+            3 => le.exists(&[z], &le.and(&zv, &f)),
+            4 => le.and(&le.bin("eq", &zv, &zv), &f),
+            _ => le.or(&f, &le.konst(false)),
+        };
+        emit_canon(&le, "fresh-env-collapse", &from_tt(tf, vars), &r);
+        for (j, v) in vars.iter().enumerate() {
+            let x = le.var(*v);
+            let ttv = (0..8u64).filter(|k| bit(*k, j as u64)).fold(0u64, |a, k| a | (1 << k));
+            emit_canon(&le, "fresh-env-var-after", &from_tt(ttv, vars), &x);
+            let t = le.or(&x, &le.not(&x));
+            emit_canon(&le, "fresh-env-taut-after", &le.env.mk_const(true), &t);
+        }
+        let g = le.and(&r, &f);
+        emit_canon(&le, "fresh-env-reuse", &from_tt(tf, vars), &g);
+        st.hit("route.fresh-env");
     }
     // every other public operation on shared nodes of the environment: the result must be ordered and reduced
     // (retain, model, the quantifiers, the counting operators, the iterator, ite, not)
